@@ -188,6 +188,12 @@ func (u *Unit) callEffects(e *Effects, cc *ssa.CallCommon, visited map[*ssa.Func
 		if pureMethodStubs[name] {
 			return
 		}
+		if strings.HasSuffix(name, ".Scan") {
+			for _, a := range cc.Args {
+				markAddrTaken(u, e, a)
+			}
+			return
+		}
 		if name == "hash.Hash32.Write" {
 			e.heaps["G!fnv"] = ArrSort(SInt, SStr)
 			return
